@@ -55,29 +55,45 @@ func detSelfTest(prop string, n int, race bool, seed int64) int {
 				defer wg.Done()
 				sem <- struct{}{}
 				defer func() { <-sem }()
-				jf, _ := os.CreateTemp(scratch, "det-*.json")
-				b, _ := json.Marshal(Job{Prop: prop, Mode: "explore", Tier: "quick", Seeds: part})
-				jf.Write(b)
-				jf.Close()
-				cmd := exec.Command(worker, "-test.run", "^TestWorker$", "-test.timeout", "0")
-				cmd.Dir = scratch
-				cmd.Env = append(os.Environ(), "VERIF_JOB="+jf.Name(), "GOMAXPROCS="+c.procs)
-				out, _ := cmd.Output()
-				mu.Lock()
-				procsUsed++
-				sc := bufio.NewScanner(bytes.NewReader(out))
-				sc.Buffer(make([]byte, 1<<20), 1<<28)
-				for sc.Scan() {
-					line := sc.Text()
-					if strings.HasPrefix(line, "@@RESULT ") {
-						var rl struct {
-							Seed int64 `json:"seed"`
+				// a worker stops early after a run that ended in a violation (known findings count):
+				// the rest of its part goes to a fresh process, as in a check
+				for len(part) > 0 {
+					jf, _ := os.CreateTemp(scratch, "det-*.json")
+					b, _ := json.Marshal(Job{Prop: prop, Mode: "explore", Tier: "quick", Seeds: part})
+					jf.Write(b)
+					jf.Close()
+					cmd := exec.Command(worker, "-test.run", "^TestWorker$", "-test.timeout", "0")
+					cmd.Dir = scratch
+					cmd.Env = append(os.Environ(), "VERIF_JOB="+jf.Name(), "GOMAXPROCS="+c.procs)
+					out, _ := cmd.Output()
+					got := map[int64]bool{}
+					mu.Lock()
+					procsUsed++
+					sc := bufio.NewScanner(bytes.NewReader(out))
+					sc.Buffer(make([]byte, 1<<20), 1<<28)
+					for sc.Scan() {
+						line := sc.Text()
+						if strings.HasPrefix(line, "@@RESULT ") {
+							var rl struct {
+								Seed int64 `json:"seed"`
+							}
+							unmarshalNum([]byte(line[9:]), &rl)
+							results[ci][rl.Seed] = wallRe.ReplaceAllString(line[9:], `"wall_ms":0`)
+							got[rl.Seed] = true
 						}
-						unmarshalNum([]byte(line[9:]), &rl)
-						results[ci][rl.Seed] = wallRe.ReplaceAllString(line[9:], `"wall_ms":0`)
 					}
+					mu.Unlock()
+					var rest []int64
+					for _, s := range part {
+						if !got[s] {
+							rest = append(rest, s)
+						}
+					}
+					if len(rest) == len(part) {
+						break // no progress: a crash; reported below as missing results
+					}
+					part = rest
 				}
-				mu.Unlock()
 			}(ci, c, part)
 		}
 	}
